@@ -128,6 +128,10 @@ func NewEtcdOp(etcdServerConfig config.EtcdServerConfig, defaultPartitionName st
 		targetMilvus:          target,
 	}
 
+	if c := verifEtcdClient(etcdServerConfig); c != nil {
+		etcdOp.etcdClient = c
+		return etcdOp, nil
+	}
 	var err error
 	log := log.With(zap.Strings("endpoints", etcdOp.endpoints))
 	etcdClientConfig, err := util.GetEtcdConfig(etcdServerConfig)
